@@ -118,7 +118,13 @@ func addLifeStuff(r rng, p *sdl.Program) {
 	n := r.n(0, 3)
 	classes := []string{"plain", "inst", "smart"}
 	for i := 1; i <= n; i++ {
-		p.Procs = append(p.Procs, &sdl.Proc{ID: fmt.Sprintf("pp%d", i), Class: pick(r, classes), OrderClass: pick(r, orderClasses), Order: pick(r, orderVals), Props: r.p(0.5), Lazy: r.p(0.35)})
+		pr := &sdl.Proc{ID: fmt.Sprintf("pp%d", i), Class: pick(r, classes), OrderClass: pick(r, orderClasses), Order: pick(r, orderVals), Props: r.p(0.5), Lazy: r.p(0.35)}
+		if pr.OrderClass != "" && r.p(0.3) {
+			// the processor settles its order in its component-factory hook
+			raw := pick(r, orderVals)
+			pr.OrderRaw = &raw
+		}
+		p.Procs = append(p.Procs, pr)
 	}
 	// runners: dedicated types
 	nr := r.n(0, 5)
@@ -305,6 +311,14 @@ func genConfig(r rng, seed uint64, id string, merge bool) *sdl.Program {
 	}
 	kinds := []string{"raw", "raw", "file", "args", "sim", "sim"}
 	vias := []string{"AddConfigLoader", "AddConfigLoader", "AddLoaders", "SetConfigLoader"}
+	many := merge && r.p(0.12)
+	if many {
+		// a long loader sequence, most of it of one rank (raw / command-line / unordered
+		// simulated loaders) with overlapping keys: add order must survive sequencing
+		ns = r.n(13, 24)
+		kinds = []string{"raw", "raw", "raw", "raw", "args", "sim", "file"}
+		vias = []string{"AddConfigLoader", "AddConfigLoader", "AddLoaders"}
+	}
 	for i := 0; i < ns; i++ {
 		s := &sdl.Source{ID: fmt.Sprintf("src%d", i), Kind: pick(r, kinds), Via: pick(r, vias), Doc: genDoc(r, 0.55)}
 		if i == 0 && r.p(0.6) {
@@ -319,11 +333,14 @@ func genConfig(r rng, seed uint64, id string, merge bool) *sdl.Program {
 				s.OrderClass = "marker"
 			}
 			s.Order = pick(r, []int{-3, 0, 0, 1, 2})
+			if many && r.p(0.7) {
+				s.OrderClass, s.Order = "", 0
+			}
 		}
 		if len(s.Doc) == 0 {
 			setPath(s.Doc, "sim.a", r.n(1, 9))
 		}
-		if r.p(0.06) {
+		if r.p(0.06) && !many {
 			switch s.Kind {
 			case "file":
 				s.Fault = pick(r, []string{"missing", "isdir", "garbage", "empty"})
@@ -381,7 +398,7 @@ func genConfig(r rng, seed uint64, id string, merge bool) *sdl.Program {
 			if merge {
 				// precedence family: fields never make the start fail
 				cf.Optional, cf.Validate = true, ""
-				if cf.Menu == "sum" || cf.Menu == "mul" || cf.Menu == "nested" || cf.Menu == "indirect" || cf.Menu == "prefixStructV" {
+				if cf.Menu == "sum" || cf.Menu == "mul" || cf.Menu == "nested" || cf.Menu == "indirect" || cf.Menu == "prefixStructV" || cf.Menu == "sumDef2" {
 					cf.Menu, cf.Keys, cf.GoType = "prefixStruct", []string{"sim.sub"}, "struct"
 				}
 			}
@@ -445,7 +462,7 @@ func genConfig(r rng, seed uint64, id string, merge bool) *sdl.Program {
 	// user processors interleave with the built-in configuration stages
 	classes := []string{"inst", "smart", "plain"}
 	for i := 0; i < r.n(0, 3); i++ {
-		p.Procs = append(p.Procs, &sdl.Proc{ID: fmt.Sprintf("pp%d", i), Class: pick(r, classes), OrderClass: pick(r, orderClasses), Order: pick(r, []int{-5, 0, 1, 3, 4, 6, 9, 20}), Props: true, Lazy: r.p(0.3)})
+		p.Procs = append(p.Procs, &sdl.Proc{ID: fmt.Sprintf("pp%d", i), Class: pick(r, classes), OrderClass: pick(r, orderClasses), Order: pick(r, []int{-5, 0, 1, 3, 4, 6, 9, 20}), Props: r.p(0.6), Lazy: r.p(0.3)})
 	}
 	return p
 }
@@ -453,7 +470,14 @@ func genConfig(r rng, seed uint64, id string, merge bool) *sdl.Program {
 func genConf(r rng, field string) *sdl.Conf {
 	c := &sdl.Conf{Field: field, GoType: "int"}
 	c.Embed = embedChain(r, 0.15)
-	switch r.IntN(11) {
+	switch r.IntN(12) {
+	case 11:
+		// two placeholders, each with its own default; one of the keys is usually absent
+		ks := []string{pick(r, []string{"gone.a", "gone.b", pick(r, cfgLeafInts[:3])}), pick(r, cfgLeafInts[:3])}
+		if r.p(0.5) {
+			ks[0], ks[1] = ks[1], ks[0]
+		}
+		c.Menu, c.Keys, c.Default, c.Default2 = "sumDef2", ks, fmt.Sprint(r.n(10, 19)), fmt.Sprint(r.n(20, 29))
 	case 10:
 		c.Menu, c.Keys = "indirect", []string{"other.f"}
 	case 0:
@@ -547,7 +571,7 @@ func GenerateTwins(seed uint64, idFlat, idEmb string) (*sdl.Program, *sdl.Progra
 		for fi := 0; fi < r.n(0, 2); fi++ {
 			cf := genConf(r, fmt.Sprintf("C%d", fi))
 			cf.Optional, cf.Validate, cf.Embed = true, "", nil
-			if cf.Menu == "sum" || cf.Menu == "mul" || cf.Menu == "nested" || cf.Menu == "indirect" || cf.Menu == "prefixStructV" {
+			if cf.Menu == "sum" || cf.Menu == "mul" || cf.Menu == "nested" || cf.Menu == "indirect" || cf.Menu == "prefixStructV" || cf.Menu == "sumDef2" {
 				cf.Menu, cf.Keys, cf.Default, cf.GoType = "valueDef", []string{pick(r, cfgLeafInts)}, "1", "int"
 			}
 			if len(p.Scanners) != 0 && r.p(0.35) {
@@ -602,7 +626,8 @@ func GenerateTwins(seed uint64, idFlat, idEmb string) (*sdl.Program, *sdl.Progra
 			for ai := 0; ai < r.n(0, 2); ai++ {
 				a := []string{pick(r, []string{"k", "mode", "Level"}) + fmt.Sprint(ai)}
 				for vi := 0; vi < r.n(0, 2); vi++ {
-					a = append(a, pick(r, []string{"a", "b1", "zz"}))
+					// (bracketed groups are single values, whatever they contain)
+					a = append(a, pick(r, []string{"a", "b1", "zz", "a", "zz", "[p,q]", "f(x,y)", "{m,n}"}))
 				}
 				cu.Args = append(cu.Args, a)
 			}
